@@ -170,7 +170,8 @@ Section Inv.
                     /\ forall hr, In hr (s_handlers s) -> h_h hr <> e_h e);
     u_aborted : forall k hr oi, nth_error (s_handlers s) k = Some hr -> nth_error (o_incs o) k = Some oi ->
                   In (h_h hr) (s_aborted s) -> oi_wire oi <> WOpen \/ s_dropped s = true;
-    u_maybe : forall k e oi, owns o s k e -> nth_error (o_incs o) k = Some oi -> oi_wire oi = WMaybe ->
+    u_maybe : forall k e oi, In e (s_inflight s) -> owns o s k e ->
+                nth_error (o_incs o) k = Some oi -> oi_wire oi = WMaybe ->
                 (oi_when oi <= s_now s)%N \/ In (oi_id oi) (s_cancels s)
   }.
 End Inv.
@@ -205,7 +206,7 @@ Section Steps.
     destruct HI. constructor; rewrite ?T1, ?T2, ?T3, ?T4, ?T5, ?C1, ?C2, ?C3, ?C4, ?C5, ?C6, ?C7, ?C8; auto.
     - intros e He'. destruct (u_owner0 e He') as [[k Hk]|Hx]; [left; exists k|right; exact Hx].
       eapply owns_frame; eauto.
-    - intros k e oi Ho. apply (u_maybe0 k e oi). eapply owns_frame; [| | |exact Ho]; auto.
+    - intros k e oi Hin Ho. apply (u_maybe0 k e oi); auto. eapply owns_frame; [| | |exact Ho]; auto.
   Qed.
 
   (* ---- removing the entry (and timer) of one id ------------------------------------------- *)
@@ -257,11 +258,12 @@ Section Steps.
       destruct (u_owner0 e He) as [[k (hr & oi & A & B & C & D & E & F & G)]|Hx]; [left|right; exact Hx].
       exists k, hr, oi. rewrite Hh, Ht. repeat split; auto.
       apply in_drop_timer. split; auto.
-    - intros k e oi (hr & oi' & A & B & C & D & E & F & G) Hoi Hm.
+    - intros k e oi Hin (hr & oi' & A & B & C & D & E & F & G) Hoi Hm.
+      apply in_drop_entry in Hin. destruct Hin as [Hin Hne0].
       rewrite Ht in F. apply in_drop_timer in F. destruct F as [F Hne]. cbn in Hne.
       rewrite Hh in A.
       assert (Ho : owns o s k e) by (exists hr, oi'; repeat split; auto).
-      destruct (u_maybe0 k e oi Ho Hoi Hm) as [L|R]; [left; exact L|right].
+      destruct (u_maybe0 k e oi Hin Ho Hoi Hm) as [L|R]; [left; exact L|right].
       apply Hc; auto. rewrite B in Hoi. inversion Hoi; subst. congruence.
   Qed.
 
@@ -280,7 +282,7 @@ Section Steps.
     - intros e He. destruct (u_owner0 e He) as [[k Hk]|Hx]; [left; exists k|right; exact Hx].
       eapply owns_frame; eauto.
     - intros k hr oi A B Hin. rewrite Ha in Hin. destruct Hin as [Heq|Hin]; [eapply Hlic; eauto|eauto].
-    - intros k e oi Ho. apply (u_maybe0 k e oi). eapply owns_frame; [| | |exact Ho]; auto.
+    - intros k e oi Hin Ho. apply (u_maybe0 k e oi); auto. eapply owns_frame; [| | |exact Ho]; auto.
   Qed.
 
   (* ---- shapes of the table operations ------------------------------------------------------ *)
@@ -458,10 +460,8 @@ Section Steps.
         assert (HIm : InvU o sm).
         { eapply (InvU_abort o s sm (e_h e)); try reflexivity; [exact HI|].
           intros k hr oi Hk Ho Hh. left. eapply due_owner_not_open; eauto. }
-        eapply (InvU_remove o sm s' id); try (subst sm; sproj; congruence); [exact HIm|].
-        intros id' _ Hin. subst sm; sproj. congruence.
-      + eapply (InvU_remove o s s' id); try congruence; [exact HI|].
-        intros id' _ Hin. congruence.
+        apply (InvU_remove o sm s' id); [exact HIm|..]; try (subst sm; sproj; congruence).
+      + apply (InvU_remove o s s' id); [exact HI|..]; try congruence.
   Qed.
 
   (* the server-side cancel queue hands out one id *)
@@ -474,23 +474,148 @@ Section Steps.
     destruct (remove_request_shape id s0) as [(_ & Heq & Hnone)|(_ & (e & He) & B1 & B2 & B3 & B4 & B5 & B6 & B7 & B8 & B9 & _)].
     - cbv zeta in Heq. rewrite Heq.
       (* nothing tracked under that id: only the queue shrinks *)
+      assert (Hnone' : find_entry id s = None) by exact Hnone.
       destruct HI. subst s0. constructor; sproj; auto.
-      + intros e0 He0. destruct (u_owner0 e0 He0) as [[k Hk]|Hx]; [left; exists k|right; exact Hx].
-        eapply owns_frame; [| | |exact Hk]; reflexivity.
-      + intros k e0 oi (hr & oi' & X1 & X2 & X3 & X4 & X5 & X6 & X7) Hoi Hm.
-        assert (Ho : owns o s k e0) by (exists hr, oi'; repeat split; auto).
-        destruct (u_maybe0 k e0 oi Ho Hoi Hm) as [L|R]; [left; exact L|right].
-        rewrite Hc in R. destruct R as [R|R]; [|exact R]. exfalso.
-        (* the popped id is not tracked, but e0 is, with that id *)
-        assert (In e0 (s_inflight s)).
-        { destruct Ho as (? & ? & _ & _ & _ & _ & _ & Hin & _).
-          rewrite <- (u_timers0) in *. clear -Hin u_timers0 X4.
-          assert (In (e_id e0) (map fst (s_timers s))) by (apply in_map_iff; exists (e_id e0, oi_when x0); auto).
-          rewrite u_timers0 in H. apply in_map_iff in H. destruct H as (e' & He' & Hin').
-          (* same id, hence (by membership only) some entry with that id is tracked *)
-          exact (match (in_dec (fun a b => _) e0 (s_inflight s)) with left i => i | right _ => _ end). }
-        admit.
-    - cbv zeta in *. eapply (InvU_remove o s _ id); try (subst s0; sproj; congruence); [exact HI|].
+      intros k e0 oi Hin (hr & oi' & X1 & X2 & X3 & X4 & X5 & X6 & X7) Hoi Hm.
+      assert (Ho : owns o s k e0) by (exists hr, oi'; repeat split; auto).
+      destruct (u_maybe0 k e0 oi Hin Ho Hoi Hm) as [L|R]; [left; exact L|right].
+      rewrite Hc in R. destruct R as [R|R]; [|exact R]. exfalso.
+      rewrite X2 in Hoi. inversion Hoi; subst oi'.
+      apply (find_entry_none _ _ Hnone' e0 Hin). congruence.
+    - cbv zeta in *. apply (InvU_remove o s _ id); [exact HI|..]; try (subst s0; sproj; congruence).
       intros id' Hne Hin. rewrite B6. subst s0; sproj. rewrite Hc in Hin. destruct Hin; [congruence|auto].
-  Abort.
+  Qed.
+
+  (* ---- closing one incarnation together with untracking its id ------------------------------- *)
+  Lemma open_id_true : forall id x, open_id id x = true <-> oi_id x = id /\ is_open (oi_wire x) = true.
+  Proof.
+    intros. unfold open_id. rewrite andb_true_iff, N.eqb_eq. tauto.
+  Qed.
+
+  Definition close_at (kopt : option nat) (w : wstate) (l : list oinc) : list oinc :=
+    match kopt with Some k => upd_nth k (fun i => set_wire i w) l | None => l end.
+
+  Lemma close_at_length : forall kopt w l, length (close_at kopt w l) = length l.
+  Proof. intros [k|] w l; cbn; [apply upd_nth_length|reflexivity]. Qed.
+
+  Lemma close_at_nth : forall kopt w l j x,
+    nth_error (close_at kopt w l) j = Some x ->
+    exists y, nth_error l j = Some y /\ oi_id x = oi_id y /\ oi_dl x = oi_dl y /\ oi_when x = oi_when y
+              /\ oi_done x = oi_done y /\ oi_ph x = oi_ph y
+              /\ ((kopt = Some j /\ oi_wire x = w) \/ (kopt <> Some j /\ oi_wire x = oi_wire y)).
+  Proof.
+    intros [k|] w l j x H; cbn in H.
+    - destruct (Nat.eq_dec k j) as [->|Hne].
+      + destruct (nth_error l j) as [y|] eqn:E.
+        * rewrite (upd_nth_same _ _ _ _ E) in H. inversion H; subst. exists y. cbn. repeat split; auto.
+        * rewrite (upd_nth_none _ _ _ E) in H. congruence.
+      + rewrite (upd_nth_other _ _ _ _ Hne) in H. exists x. repeat split; auto. right. split; congruence.
+    - exists x. repeat split; auto. right. split; [discriminate|reflexivity].
+  Qed.
+
+  Lemma close_at_nth_fwd : forall kopt w l j y,
+    nth_error l j = Some y ->
+    exists x, nth_error (close_at kopt w l) j = Some x /\ oi_id x = oi_id y /\ oi_when x = oi_when y
+              /\ oi_done x = oi_done y /\ oi_ph x = oi_ph y
+              /\ ((kopt = Some j /\ oi_wire x = w) \/ (kopt <> Some j /\ oi_wire x = oi_wire y)).
+  Proof.
+    intros [k|] w l j y H; cbn.
+    - destruct (Nat.eq_dec k j) as [->|Hne].
+      + rewrite (upd_nth_same _ _ _ _ H). eexists; repeat split; eauto.
+      + rewrite (upd_nth_other _ _ _ _ Hne). exists y. repeat split; auto. right. split; congruence.
+    - exists y. repeat split; auto. right. split; [discriminate|reflexivity].
+  Qed.
+
+  Lemma InvU_untrack : forall o o' (s s' : st) id w,
+    InvU o s ->
+    o_incs o' = close_at (last_open id (o_incs o)) w (o_incs o) -> is_open w = false ->
+    o_now o' = o_now o -> o_dropped o' = o_dropped o -> (o_eof o = true -> o_eof o' = true) ->
+    (forall e, In e (s_inflight s) -> e_id e <> id ->
+       (pend_id o = Some (e_id e) \/ c_err (o_v o) = true) ->
+       (pend_id o' = Some (e_id e) \/ c_err (o_v o') = true)) ->
+    s_inflight s' = drop_entry id (s_inflight s) -> s_timers s' = drop_timer id (s_timers s) ->
+    (s_aborted s' = s_aborted s
+     \/ exists e, find_entry id s = Some e /\ s_aborted s' = e_h e :: s_aborted s) ->
+    (forall id', id' <> id -> In id' (s_cancels s) -> In id' (s_cancels s')) ->
+    s_handlers s' = s_handlers s -> s_next_h s' = s_next_h s ->
+    s_now s' = s_now s -> s_dropped s' = s_dropped s -> s_fused s' = s_fused s ->
+    InvU o' s'.
+  Proof.
+    intros o o' s s' id w HI Hincs Hw Hnow Hdr Heof Hpend Hi Ht Hab Hc Hh Hn Hnw Hd Hf.
+    set (kopt := last_open id (o_incs o)) in *.
+    constructor.
+    - rewrite Hincs, close_at_length, Hh. exact (u_len _ _ HI).
+    - rewrite Hnow, Hnw. exact (u_now _ _ HI).
+    - rewrite Hdr, Hd. exact (u_dropped _ _ HI).
+    - rewrite Hf. intros F. apply Heof. exact (u_eof _ _ HI F).
+    - intros k hr oi Hk Hoi. rewrite Hh in Hk. rewrite Hincs in Hoi.
+      destruct (close_at_nth _ _ _ _ _ Hoi) as (y & Hy & E1 & E2 & E3 & E4 & E5 & _).
+      destruct (u_hand _ _ HI k hr y Hk Hy) as (A & B & C & D).
+      rewrite E1, E4, E5, Hn. auto.
+    - rewrite Hh. exact (u_hnodup _ _ HI).
+    - rewrite Hi. apply NoDup_map_filter. exact (u_enodup _ _ HI).
+    - rewrite Hi. apply NoDup_map_filter. exact (u_idnodup _ _ HI).
+    - intros e He. rewrite Hi in He. apply in_drop_entry in He. rewrite Hn. apply (u_efresh _ _ HI). tauto.
+    - rewrite Hi, Ht. apply drop_sync. exact (u_timers _ _ HI).
+    - intros k1 k2 o1 o2 H1 H2 Hid Ho1 Ho2. rewrite Hincs in H1, H2.
+      destruct (close_at_nth _ _ _ _ _ H1) as (y1 & Hy1 & E1 & _ & _ & _ & _ & W1).
+      destruct (close_at_nth _ _ _ _ _ H2) as (y2 & Hy2 & F1 & _ & _ & _ & _ & W2).
+      destruct W1 as [[_ W1]|[_ W1]]; [rewrite W1, Hw in Ho1; discriminate|].
+      destruct W2 as [[_ W2]|[_ W2]]; [rewrite W2, Hw in Ho2; discriminate|].
+      apply (u_one_open _ _ HI k1 k2 y1 y2); auto; congruence.
+    - intros k oi Hoi Hop. rewrite Hincs in Hoi.
+      destruct (close_at_nth _ _ _ _ _ Hoi) as (y & Hy & _ & _ & E3 & _ & _ & W).
+      destruct W as [[_ W]|[_ W]]; [rewrite W in Hop; rewrite Hop in Hw; discriminate Hw|].
+      rewrite E3, Hnw. apply (u_open_young _ _ HI k y Hy). congruence.
+    - (* owners *)
+      intros e He. rewrite Hi in He. apply in_drop_entry in He. destruct He as [He Hne].
+      destruct (u_owner _ _ HI e He) as [[k (hr & oi & A & B & C & D & E & F & G)]|[Hx Hy]].
+      + left. exists k.
+        destruct (close_at_nth_fwd kopt w _ _ _ B) as (x & Hx & X1 & X2 & X3 & X4 & W).
+        assert (Hk : kopt <> Some k).
+        { intros Hk. subst kopt. destruct (last_open_some _ _ _ Hk) as (z & Hz & Hopen & _).
+          rewrite B in Hz. inversion Hz; subst z. apply open_id_true in Hopen. destruct Hopen. congruence. }
+        destruct W as [[W _]|[_ W]]; [contradiction|].
+        exists hr, x. rewrite Hh, Hincs, Ht. repeat split; auto; try congruence.
+        * apply in_drop_timer. split; [congruence|]. cbn. exact Hne.
+        * intros k' oi' Hlt Hoi'. destruct (close_at_nth _ _ _ _ _ Hoi') as (y' & Hy' & Y1 & _).
+          rewrite Y1. eapply G; eauto.
+      + right. split; [apply Hpend; auto|]. rewrite Hh. exact Hy.
+    - (* aborted handles *)
+      intros k hr oi Hk Hoi Hin. rewrite Hh in Hk. rewrite Hincs in Hoi. rewrite Hd.
+      destruct (close_at_nth _ _ _ _ _ Hoi) as (y & Hy & _ & _ & _ & _ & _ & W).
+      destruct W as [[_ W]|[Hk' W]]; [left; rewrite W; intro Heq; rewrite Heq in Hw; discriminate Hw|].
+      rewrite W.
+      destruct Hab as [Hab|(e & Hfe & Hab)]; rewrite Hab in Hin.
+      + exact (u_aborted _ _ HI k hr y Hk Hy Hin).
+      + destruct Hin as [Heq|Hin]; [|exact (u_aborted _ _ HI k hr y Hk Hy Hin)].
+        (* the aborted handle belongs to the removed entry, whose owner is the closed incarnation *)
+        exfalso. destruct (find_entry_some _ _ _ Hfe) as [He Hid].
+        destruct (u_owner _ _ HI e He) as [[k' (hr' & oi' & A & B & C & D & E & F & G)]|[_ Hy']].
+        * assert (k' = k) by (eapply NoDup_map_nth_inj; [exact (u_hnodup _ _ HI)|exact A|exact Hk|congruence]).
+          subst k'. rewrite Hy in B. inversion B; subst oi'.
+          (* k is an open incarnation of id, hence the last open one *)
+          destruct (last_open id (o_incs o)) as [k0|] eqn:EL.
+          -- destruct (last_open_some _ _ _ EL) as (z & Hz & Hopen & _). apply open_id_true in Hopen.
+             destruct Hopen as [Z1 Z2].
+             assert (k = k0) by (apply (u_one_open _ _ HI k k0 y z); auto; congruence).
+             subst k0. apply Hk'. reflexivity.
+          -- pose proof (last_open_none _ _ EL k y Hy) as Hno. unfold open_id in Hno.
+             rewrite D, Hid, N.eqb_refl, E in Hno. discriminate.
+        * apply (Hy' hr); [eapply nth_error_In; eauto|congruence].
+    - (* maybe *)
+      intros k e oi He (hr & oi' & A & B & C & D & E & F & G) Hoi Hm.
+      rewrite Hi in He. apply in_drop_entry in He. destruct He as [He Hne].
+      rewrite Hincs in Hoi, B. rewrite Hh in A. rewrite Ht in F. apply in_drop_timer in F. destruct F as [F _].
+      rewrite B in Hoi. inversion Hoi; subst oi'.
+      destruct (close_at_nth _ _ _ _ _ B) as (y & Hy & Y1 & _ & Y3 & _ & _ & W).
+      destruct W as [[_ W]|[_ W]]; [rewrite W in Hm; rewrite Hm in Hw; discriminate Hw|].
+      assert (Ho : owns o s k e).
+      { exists hr, y. repeat split; auto; try congruence.
+        intros k' oi'' Hlt Hoi''. destruct (close_at_nth_fwd kopt w _ _ _ Hoi'') as (x' & Hx' & X1 & _).
+        rewrite <- X1, <- Hincs in *. eapply G; eauto. }
+      rewrite Y3, Y1, Hnw.
+      destruct (u_maybe _ _ HI k e y He Ho Hy) as [L|R]; [congruence|left; exact L|right].
+      apply Hc; auto. congruence.
+  Qed.
 End Steps.
